@@ -12,9 +12,10 @@ CONSTANTS
   ReqMethods = {"GET", "OPTIONS"}
   ReqHosts = {"", "one.test", "three.test"}
   ReqPaths = {"/a", "/c"}
+  ReqOrigins = {""}
   GenMinCalls = 0
   Dev = {}
 SPECIFICATION Spec
-INVARIANTS TypeOK Inv_RouteCorsIntent Inv_Response Inv_Unmatched Inv_HandlerWins Inv_OptionsRouteOnly Inv_CorsValues
+INVARIANTS TypeOK Inv_RouteCorsIntent Inv_Response Inv_Unmatched Inv_HandlerWins Inv_OptionsRouteOnly Inv_CorsValues Inv_Judge
 CHECK_DEADLOCK FALSE
 
